@@ -399,7 +399,7 @@ func isPlain(s string) bool {
 
 // damage applies one kind of damage to a message.
 func damage(t *rapid.T, m *rig.InMsg) *rig.InMsg {
-	m.Damage = rapid.SampledFrom([]string{"checksum", "bodylength", "checksum", "bodylength", "leading-field", "trailing-field"}).Draw(t, "damage")
+	m.Damage = rapid.SampledFrom([]string{"checksum", "bodylength", "checksum", "bodylength", "leading-field", "trailing-field", "checksum-spelling"}).Draw(t, "damage")
 	m.DamageBy = rapid.IntRange(0, 300).Draw(t, "damageBy")
 	return m
 }
